@@ -359,6 +359,15 @@ const basePolicyJSON = `[["==", ".x", 1], ["like", ".n?", "\\**"], ["not", ["lik
 
 const foreignHeaders = 6
 
+// the integers just outside +/-(2^53-1), and at the far ends of what the wire can carry (the most negative one has no
+// positive counterpart)
+var oobValues = map[string][]int64{
+	"oob":    {1 << 53, math.MaxInt64, 1 << 62, 1<<53 + 1},
+	"oobneg": {-(1 << 53), math.MinInt64, math.MinInt64 + 1, -(1 << 62)},
+}
+
+func oobValue(c string, rot int) int64 { return oobValues[c][rot%len(oobValues[c])] }
+
 func repsOf(c envCase) int {
 	n := 1
 	for _, op := range c.Ops {
@@ -381,8 +390,12 @@ func repsOf(c envCase) int {
 			k = len(shortNonces)
 		case op.A == "pol" && op.B == "bad":
 			k = len(badPolicies)
-		case op.A == "pol" && (op.B == "oob" || op.B == "oobneg" || op.B == "u64"):
+		case op.A == "pol" && (op.B == "oob" || op.B == "oobneg"):
+			k = 8 * len(oobValues["oob"])
+		case op.A == "pol" && op.B == "u64":
 			k = 8
+		case (op.A == "nbf" || op.A == "exp" || op.A == "iat" || op.A == "args") && (op.B == "oob" || op.B == "oobneg"):
+			k = len(oobValues["oob"])
 		case (op.A == "nbf" || op.A == "exp" || op.A == "iat") && op.B == "ok2":
 			k = 6
 		case op.A == "aud" && op.B == "ok2":
@@ -472,8 +485,10 @@ func (ew *envWorld) classValue(e *envelopeParts, f, c string) (ipld.Node, bool, 
 			// under a quantifier / a negation
 			var v ipld.Node = basicnode.NewInt(1 << 53)
 			op := "=="
-			if c == "oobneg" {
-				v, op = basicnode.NewInt(-(1 << 53)), ">"
+			if c == "oob" {
+				v = basicnode.NewInt(oobValue(c, ew.rot/8))
+			} else if c == "oobneg" {
+				v, op = basicnode.NewInt(oobValue(c, ew.rot/8)), ">"
 			} else if c == "u64" {
 				v = bigU64
 			}
@@ -503,9 +518,9 @@ func (ew *envWorld) classValue(e *envelopeParts, f, c string) (ipld.Node, bool, 
 		case "wrongkind":
 			return listOf(basicnode.NewInt(1)), true, nil
 		case "oob":
-			return mapNode(map[string]ipld.Node{"x": listOf(basicnode.NewInt(1 << 53))}), true, nil
+			return mapNode(map[string]ipld.Node{"x": listOf(basicnode.NewInt(oobValue(c, ew.rot)))}), true, nil
 		case "oobneg":
-			return mapNode(map[string]ipld.Node{"x": mapNode(map[string]ipld.Node{"y": basicnode.NewInt(-(1 << 53))})}), true, nil
+			return mapNode(map[string]ipld.Node{"x": mapNode(map[string]ipld.Node{"y": basicnode.NewInt(oobValue(c, ew.rot))})}), true, nil
 		case "u64":
 			return mapNode(map[string]ipld.Node{"x": bigU64}), true, nil
 		}
@@ -542,10 +557,8 @@ func (ew *envWorld) classValue(e *envelopeParts, f, c string) (ipld.Node, bool, 
 			return basicnode.NewInt([]int64{time.Now().Add(3 * time.Hour).Unix(), 253402300799, 1 << 40, 1<<53 - 1, -(1<<53 - 1), 100_000_000_001}[ew.rot%6]), true, nil
 		case "wrongkind":
 			return str("soon"), true, nil
-		case "oob":
-			return basicnode.NewInt(1 << 53), true, nil
-		case "oobneg":
-			return basicnode.NewInt(-(1 << 53)), true, nil
+		case "oob", "oobneg":
+			return basicnode.NewInt(oobValue(c, ew.rot)), true, nil
 		case "u64":
 			return bigU64, true, nil
 		case "zero":
